@@ -13,7 +13,9 @@
      O2  ... and a later deferUntilLocked(timeout) arms no timeout at all (CallWait with stale);
      O3  ... and when the acquiring poll is a retry on the clock the exception escapes from Clock.advance(), the lock IS
          held, the Deferred never fires and the object answers AlreadyTryingToLockError forever (`wedged`, AdvWedge);
-     O4  cancelling the Deferred of a wedged object logs the canceller's AlreadyCalled and fails it with CancelledError;
+     O4  cancelling the Deferred of a wedged object raises AlreadyCalled out of Deferred.cancel() (the canceller tries to
+         cancel the spent retry call) and changes nothing: that Deferred NEVER fires (exactly-once is only
+         at-most-once on this path);
      O5  cancel() and the timeout both try lock() one last time: if the file is free at that moment the Deferred
          SUCCEEDS with the lock held (CancelAcquire, AdvLastChance).                                                  *)
 EXTENDS Naturals, Integers, Sequences
@@ -138,11 +140,10 @@ CancelAcquire ==                       \* O5
     /\ UNCHANGED <<cfg, now, stale, wedged, t0, tmo>>
     /\ last' = Obs("cancel", "", "", 0)
 
-CancelWedged ==                        \* O4: the canceller raises AlreadyCalled, Deferred.cancel logs it
+CancelWedged ==                        \* O4: the canceller raises AlreadyCalled out of cancel(); the Deferred stays unfired
     /\ dst = "pending" /\ wedged
-    /\ dst' = "cancelled"
-    /\ UNCHANGED <<cfg, now, holder, tryAt, toAt, stale, wedged, t0, tmo>>
-    /\ last' = Obs("cancel", "", "", 1)
+    /\ UNCHANGED core
+    /\ last' = Obs("cancel", "", "AlreadyCalled", 0)
 
 Cancel == CancelNoop \/ CancelErr \/ CancelAcquire \/ CancelWedged
 
@@ -193,18 +194,21 @@ TimeoutNotPast == toAt # None => toAt >= now
 \* TimeoutError only for a call that asked for a timeout, and never before it
 NoEarlyTimeout == dst = "timeout" => (tmo # None /\ now >= t0 + tmo)
 \* extent of the deviations: they need a timeout call to have fired first
-OddShape == (wedged => (stale /\ dst \in {"pending", "cancelled"} /\ tryAt = None)) /\ (stale => toAt = None)
+\* and a wedged Deferred stays pending for ever (O3/O4: at-most-once, not exactly-once, on that path)
+OddShape == (wedged => (stale /\ dst = "pending" /\ tryAt = None)) /\ (stale => toAt = None)
 Inv == NoLeak /\ RetryArmed /\ TimeoutArmed /\ TimeoutNotPast /\ NoEarlyTimeout /\ OddShape
 
 (* step properties *)
 Fresh == last'.ret = "new"
 StepOK ==
-    \* exactly once: a Deferred's result never changes
+    \* at most once: a Deferred's result never changes (exactly once except for a wedged Deferred, which never fires)
     /\ (dst \in Final /\ ~Fresh) => dst' = dst
     \* success means: the lock was free and we hold it now
     /\ (dst' = "ok" /\ (dst # "ok" \/ Fresh)) => (holder = "none" /\ holder' = "self")
-    \* TimeoutError / CancelledError only while the lock is not free (or wedged, O4)
-    /\ (dst' \in {"timeout", "cancelled"} /\ dst = "pending") => (holder # "none" \/ wedged)
+    \* TimeoutError / CancelledError only while the lock is not free, and never from a wedged object
+    /\ (dst' \in {"timeout", "cancelled"} /\ dst = "pending") => (holder # "none" /\ ~wedged)
+    \* once wedged, always wedged, and nothing observable but the lock file ever changes again (O3/O4)
+    /\ wedged => (wedged' /\ dst' = dst /\ tryAt' = tryAt /\ toAt' = toAt)
     \* acquired at the first poll at which it is free: a poll that leaves us waiting found it taken
     /\ (dst = "pending" /\ dst' = "pending" /\ ~wedged' /\ tryAt' # tryAt) => holder # "none"
     \* AlreadyTryingToLockError exactly while an attempt is outstanding; it changes nothing
